@@ -108,28 +108,56 @@ class VDict(V):
 
 
 class VMap(V):
-    """dict with symbolic contents: uninterpreted `has`/`get` over a key sort.
-    keysort in ('int','str'); value kind in ('int','str','val')."""
-    __slots__ = ('name', 'has', 'get', 'keykind', 'valkind', 'extra')
+    """dict with symbolic contents: uninterpreted `has` over the key sort; values are produced by the registry
+    as uninterpreted functions of the key (so equal keys give equal values)."""
+    __slots__ = ('name', 'has', 'keykind', 'valtype', 'reg', 'cache', 'module')
 
-    def __init__(self, name, keykind, valkind):
-        ks = IntS if keykind == 'int' else StrS
-        vs = {'int': IntS, 'str': StrS, 'val': ValS}[valkind]
+    def __init__(self, name, keykind, valtype, reg, module=None):
+        ks = {'int': IntS, 'str': StrS, 'bytes': SeqS, 'val': ValS}[keykind]
         self.name = name
         self.keykind = keykind
-        self.valkind = valkind
+        self.valtype = valtype
+        self.reg = reg
+        self.module = module
         self.has = z3.Function(name + '.has', ks, BoolS)
-        self.get = z3.Function(name + '.get', ks, vs)
-        self.extra = {}
+        self.cache = {}
+
+    def key_term(self, I, key):
+        if self.keykind == 'int' and isinstance(key, (VInt, VBool)):
+            return I.as_int(key)
+        if self.keykind == 'str' and isinstance(key, VStr):
+            return key.t
+        if self.keykind == 'bytes' and isinstance(key, VSeq):
+            return key.t
+        if self.keykind == 'val' and isinstance(key, VOpaque):
+            return key.t
+        return None
+
+    def get(self, I, key):
+        k = self.key_term(I, key)
+        cid = k.get_id()
+        if cid not in self.cache:
+            self.cache[cid] = self.reg.indexed_of_type(I, self.valtype, self.name + '.get', k, self.module)
+        return self.cache[cid]
+
+
+class VLazy(V):
+    """a parameter / field whose symbolic value is created at first use (avoids forking on unused Opt/Union)"""
+    __slots__ = ('cell', 'snapshot')
+
+    def __init__(self, cell, snapshot=False):
+        self.cell = cell          # {'make': callable -> V, 'value': V or None, 'snap': initial-state copy}
+        self.snapshot = snapshot
 
 
 class VObj(V):
-    __slots__ = ('cls', 'fields', 'tag')
+    __slots__ = ('cls', 'fields', 'tag', 'cls_set')
 
     def __init__(self, cls, fields=None, tag=None):
         self.cls = cls
         self.fields = fields if fields is not None else {}
         self.tag = tag
+        self.cls_set = None
 
     def __repr__(self):
         return 'VObj<%s>' % getattr(self.cls, 'name', self.cls)
@@ -163,6 +191,17 @@ class VOpaque(V):
 
     def __init__(self, t):
         self.t = t
+
+
+class VAbsList(V):
+    """python list/dict whose contents the proof does not track (result containers built in loops)"""
+    __slots__ = ('kind',)
+
+    def __init__(self, kind='list'):
+        self.kind = kind
+
+    def __repr__(self):
+        return 'VAbs%s' % self.kind
 
 
 class VHex(V):
